@@ -61,7 +61,16 @@ for FL in "${FLAVOURS[@]}"; do
 			  --disable-uuidd --disable-e2initrd-helper --disable-defrag >"$D/configure.log" 2>&1 ) \
 			  || { echo "HARNESS-ERROR: configure failed, see $D/configure.log"; exit 2; }
 		fi
-		gcc -O1 -g -c "$VERIF/sim/shim/simshim.c" -o "$D/simshim.o"
+		gcc -O1 -g -c "$VERIF/sim/shim/simshim.c" -o "$D/simshim.o.new"
+		if ! cmp -s "$D/simshim.o.new" "$D/simshim.o" 2>/dev/null; then
+			# the shim is not a make dependency of the tools: force a relink
+			mv "$D/simshim.o.new" "$D/simshim.o"
+			rm -f "$D/obj/misc/mke2fs" "$D/obj/misc/tune2fs" "$D/obj/misc/dumpe2fs" "$D/obj/misc/e2image" "$D/obj/misc/e2undo" \
+			      "$D/obj/misc/e2freefrag" "$D/obj/misc/badblocks" "$D/obj/e2fsck/e2fsck" "$D/obj/debugfs/debugfs" \
+			      "$D/obj/resize/resize2fs" "$D"/harness/* 2>/dev/null || true
+		else
+			rm -f "$D/simshim.o.new"
+		fi
 		( cd "$D/obj" && make -j16 V=0 libs >"$D/make.log" 2>&1 && \
 		  make -j16 V=0 progs LDFLAGS="$SAN $WRAPS" SYSLIBS="$D/simshim.o -lpthread" >>"$D/make.log" 2>&1 ) \
 		  || { echo "HARNESS-ERROR: build of /repo's working tree failed, see $D/make.log"; tail -30 "$D/make.log"; exit 2; }
